@@ -203,6 +203,38 @@ class World(object):
             self.violate('reseed_not_reproducible', '%s: np.random.seed(%d) before two unseeded calls gave %s vs %s' % (name, s, describe(r1), describe(r2)))
         self.sync()
 
+    def buffer_reuse(self, name, aseed, s):
+        """the caller keeps ONE array object, refills it in place between calls (same shape, same total weight) and calls the
+        routine again: 'identical arguments and seed' are identical *values* - the result must equal that of a call on a fresh
+        array with the same contents (nothing may survive inside the library between calls)"""
+        args, kw = registry.REG[name]['make'](random.Random(aseed))
+        if not args or not isinstance(args[0], np.ndarray) or args[0].ndim != 2 or args[0].shape[0] != args[0].shape[1]:
+            return
+        A1 = args[0]
+        n = len(A1)
+        perm = list(range(n))
+        random.Random(aseed ^ 0x5a5a).shuffle(perm)
+        A2 = A1[np.ix_(perm, perm)].copy()
+        buf = A1.copy()
+        g0 = gstate()
+
+        def run(first):
+            a = (first,) + tuple(x.copy() if isinstance(x, np.ndarray) else x for x in args[1:])
+            k2 = {k: (v.copy() if isinstance(v, np.ndarray) else v) for k, v in kw.items()}
+            try:
+                return ('value', registry.call(name, a, k2, seed=s))
+            except Exception as e:
+                return ('raised', type(e).__name__, str(e)[:160])
+        run(buf)                     # first call on the caller's buffer
+        buf[...] = A2                # refill in place: same object, same shape, same multiset of entries
+        r_buf = run(buf)
+        r_fresh = run(A2.copy())
+        self._check_untouched(g0, name, 'calls on a re-used buffer')
+        self.bump('buffer_reuse_pairs')
+        if not same(r_buf, r_fresh):
+            self.violate('seeded_not_reproducible', '%s with seed=%d: a call on a re-used (refilled in place) array gives %s, a call on a fresh array with '
+                         'the same contents gives %s' % (name, s, describe(r_buf), describe(r_fresh)))
+
     def seeded_raises(self, name, aseed, s):
         bad = registry.REG[name]['bad']
         if bad is None:
@@ -214,7 +246,7 @@ class World(object):
         self.bump('own_raise_paths' if r[0] == 'raised' else 'bad_args_accepted')
 
 
-FUNC_OPS = ('seeded_twice', 'int_vs_state', 'unseeded_function', 'reseed', 'seeded_raises')
+FUNC_OPS = ('seeded_twice', 'int_vs_state', 'unseeded_function', 'reseed', 'seeded_raises', 'buffer_reuse')
 
 
 def execute(case, mode):
@@ -244,6 +276,8 @@ def execute(case, mode):
             w.reseed(op[1], op[2], op[3])
         elif kind == 'seeded_raises':
             w.seeded_raises(op[1], op[2], op[3])
+        elif kind == 'buffer_reuse':
+            w.buffer_reuse(op[1], op[2], op[3])
         if kind in FUNC_OPS:
             names.append(op[1])
         w.bump('op:' + kind)
@@ -290,7 +324,8 @@ class _Scn(object):
             else:
                 name = rnd.choice(registry.NAMES)
                 aseed = rnd.randrange(2 ** 31)
-                kind = rnd.choice(('seeded_twice', 'seeded_twice', 'int_vs_state', 'int_vs_state', 'unseeded_function', 'unseeded_function', 'reseed', 'seeded_raises'))
+                kind = rnd.choice(('seeded_twice', 'seeded_twice', 'int_vs_state', 'int_vs_state', 'unseeded_function', 'unseeded_function', 'reseed', 'seeded_raises',
+                                   'buffer_reuse'))
                 if kind == 'seeded_raises' and registry.REG[name]['bad'] is None:
                     kind = 'seeded_twice'
                 if kind == 'unseeded_function':
@@ -314,7 +349,7 @@ class _Scn(object):
             if c['ops']:
                 yield c
         for x, op in enumerate(ops):
-            if op[0] in ('seeded_twice', 'int_vs_state', 'reseed', 'seeded_raises') and op[3] != 1:
+            if op[0] in ('seeded_twice', 'int_vs_state', 'reseed', 'seeded_raises', 'buffer_reuse') and op[3] != 1:
                 c = dict(case)
                 c['ops'] = ops[:x] + [op[:3] + [1]] + ops[x + 1:]
                 yield c
